@@ -146,7 +146,11 @@ def mk_arc(rot, la, sw, neg=(False, False), case='fit', radii='2x1', u1='sym'):
         inp.update(C=M, u1=(a1, b1), u2=(-a1, -b1), k=k)
     inp.update(start=start, end=end)
     rad = SC(-rx if neg[0] else rx, -ry if neg[1] else ry)
-    arc = P.Arc(start, rad, RotDeg(deg, c, s), la, sw, end)
+    try:
+        arc = P.Arc(start, rad, RotDeg(deg, c, s), la, sw, end)
+    except NonFinite as e:
+        e.inp = inp          # a square root of a negative number inside the constructor: NaN in the real library
+        raise
     return arc, inp
 
 
@@ -233,7 +237,16 @@ def fam_param(R, rot, la, sw, neg=(False, False), case='fit', radii='2x1', u1='q
     for ctx, (kind, val) in explore(run, maxpaths=300):
         R.path(ctx)
         if kind != 'ok':
-            R.unexpected(ctx, 'unexpected %s %r' % (kind, val))
+            done = False
+            if isinstance(val, NonFinite) and hasattr(val, 'inp'):
+                # the real constructor would produce NaN here: replay a model of this path
+                r_, m_ = R.witness(ctx, 'non-finite-path', extra=[zabs(v.e) <= 9 for v in (val.inp['C'].real, val.inp['C'].imag)])
+                if r_ == 'sat' and m_ is not None:
+                    src = conc_arc_src(m_, val.inp, la, sw, neg)
+                    done = R.direct_cex('constructor-stays-finite', {'cls': 'Arc F.6.5 conformance', 'inputs': {'arc': src},
+                                                                     'script': REPLAY_F65 % (src, (mval(m_, val.inp['rx']) * (-1 if neg[0] else 1), mval(m_, val.inp['ry']) * (-1 if neg[1] else 1)))})
+            if not done:
+                R.unexpected(ctx, 'unexpected %s %r' % (kind, val))
             continue
         arc, inp, t, p0, p1, pt, bez = val
         rx, ry = inp['rx'], inp['ry']
@@ -249,7 +262,8 @@ def fam_param(R, rot, la, sw, neg=(False, False), case='fit', radii='2x1', u1='q
             robust += [zabs(inp['det'].e) >= 0.2]
             away = [zabs(inp['det'].e) >= 1e-3]
         else:
-            robust += [inp['k'].e <= 3, inp['k'].e >= 1.2]
+            # comfortably too small radii, or radii too small by a few parts per million (tolerance windows around Lambda = 1)
+            robust += [z3.Or(z3.And(inp['k'].e <= 3, inp['k'].e >= 1.2), z3.And(inp['k'].e >= 1.000001, inp['k'].e <= 1.000004))]
             away = []
         Rr, Ri = lift(arc.radius.real), lift(arc.radius.imag)
         k = inp.get('k', lift(1))
